@@ -8,7 +8,7 @@ from mc.core import Acc, Hang, horizon
 
 ID = "C11"
 RULE = ("E-INPUT: (A) date ladder: start dates = 28th..31st and 1st of every month of 2019-2020 (+ a seeded date) x 19 spans "
-        "(0, 1 ms .. 150 y) x value type {datetime, date} x n in {1,2,3} (sorted and unsorted), with options omitted / {} / "
+        "(0, 1 ms .. 150 y) x value type {datetime, date, datetime with microseconds} x n in {1,2,3} (sorted and unsorted), with options omitted / {} / "
         "{'direction': d} in rotation, both back-ends; (B) option sweep: 12 dataset shapes (single datum, equal times, ints, "
         "floats, dates, datetimes, bare times, unsorted) x option form {omitted, empty, partial, full} x 4 directions x 3 "
         "algorithms x 3 bounds x tick display x 2 back-ends; (C, thorough) 200/500/1000 labels with conflict clusters of "
@@ -26,7 +26,7 @@ BOUNDS = ({}, {"minPos": None}, {"maxPos": 90})
 
 
 def bounds(tier, seed):
-    return {"ladder": {"starts": len(starts(seed)), "spans_ms": SPANS, "types": ["datetime", "date"], "n": [1, 2, 3]},
+    return {"ladder": {"starts": len(starts(seed)), "spans_ms": SPANS, "types": ["datetime", "date", "datetime with microseconds"], "n": [1, 2, 3]},
             "sweep": {"shapes": len(shapes()), "forms": ["omitted", "empty", "partial", "full"], "directions": 4, "algorithms": 3,
                       "bounds": 3, "ticks": 2},
             "large": "n in {200,500,1000} x cluster sizes {1,2,5,10,50,100,150,200}, probe 250" if tier == "thorough" else "thorough only"}
@@ -58,6 +58,8 @@ def ladder_data(st, span, typ, n, rev):
                               [st, st + _dt.timedelta(milliseconds=span // 2), st + _dt.timedelta(milliseconds=span)])
     if typ == "date":
         ts = [t.date() for t in ts]
+    elif typ == "datetime-us":  # datetimes carry microseconds
+        ts = [t + _dt.timedelta(microseconds=333 + 7 * i) for i, t in enumerate(ts)]
     if rev:
         ts = ts[::-1]
     return [{"time": t, "width": 40} if i % 2 else {"time": t, "width": 30, "text": "e%d" % i} for i, t in enumerate(ts)]
@@ -71,6 +73,8 @@ def shapes():
         ("lin", [{"time": 0, "width": 40}, {"time": 10, "width": 40}, {"time": 4, "width": 40, "text": "mid"}]),
         ("lin", [{"time": 0.5, "width": 55}, {"time": 0.75, "width": 55}, {"time": 0.625, "width": 55}]),
         ("lin", [{"time": -3, "width": 10}, {"time": 1e6, "width": 10}]),
+        ("lin", [{"time": 1.0, "width": 10}, {"time": 1.0000000000000002, "width": 10}]),
+        ("lin", [{"time": 1e12, "width": 10}, {"time": 1e12 + 0.0001220703125, "width": 10}, {"time": 1e12 + 0.000244140625, "width": 10}]),
         ("time", [{"time": dt(2020, 2, 29, 12), "width": 40}]),
         ("time", [{"time": dt(2020, 1, 31), "width": 40}, {"time": dt(2020, 1, 31), "width": 40, "text": "same"}]),
         ("time", [{"time": dt(2020, 3, 1, 8), "width": 40, "text": "b"}, {"time": dt(2019, 12, 31, 23, 59), "width": 40},
@@ -120,7 +124,7 @@ def judge(case, acc=None):
         opts = options_for(case["kind"], form, direction, algo, bi, ticks)
     d_eff = direction if form in ("partial", "full") else "right"
     try:
-        with horizon(case.get("budget", 30.0)):
+        with horizon(case.get("budget", 10.0)):
             tl = draw.make_timeline(backend, data, opts)
             doc = tl.export()
     except Hang:
@@ -193,7 +197,7 @@ def run_shard(shard):
         idx = 0
         for si, st in enumerate(starts(shard["seed"], shard.get("tier", "quick"))):
             for sp in SPANS:
-                for typ in ("datetime", "date"):
+                for typ in ("datetime", "date", "datetime-us"):
                     for n, rev in ((1, False), (2, False), (2, True), (3, False), (3, True)):
                         if n == 1 and sp != SPANS[0]:
                             continue
